@@ -41,8 +41,8 @@ CHECKS = {
    "proof on the id model + cross-flavour differential testing"),
  "C12": ("proof", "5.12", "Theorems: for every arity the printed slots and strides are position by position the installed ones (printed_eq_installed), and the text is built from those numbers. Correspondence: the real generator's text for arities 1-4 compared with the model's text and with the installed arrays.",
    "proof of the positional layout + text differential testing"),
- "C13": ("proof", "5.13", "Theorems: initialisers fit their extents, the stop bit marks exactly the last code, fetch faults rather than misreads once the write cursor has passed a code, writes stay inside vtbls[D]. Correspondence: the real encoder's text parsed and laid out in a heap block of the emitted struct's exact layout (ASan both ends), decoded in place by the real decoder; extents, streams, decoded words, v-table pointers and calls compared with the model and with the calls after update. PARTIAL: the round-trip theorem decode(encode) ~ install is not yet closed.",
-   "proof of encoder/decoder guards + round-trip differential testing under ASan"),
+ "C13": ("proof", "5.13", "Theorems: initialisers fit their extents, the stop bit marks exactly the last code, fetch faults rather than misreads once the write cursor has passed a code, writes stay inside vtbls[D]. Correspondence: the real encoder's text parsed and laid out in a heap block of the emitted struct's exact layout (ASan both ends), decoded in place by the real decoder; extents, streams, decoded words, v-table pointers and calls compared with the model and with the calls after update. C13_decode_encode_is_install: for every compiled registry whose numbers fit the 16-bit fields and that install accepts, decoding the emitted data in place rebuilds exactly the words install wrote into dispatch_data, the same v-table pointers and the same slots_strides (C13_vtables_round_trip: with the head room the encoder computes by replaying the decoder's cursors no code is read after a decoded word overwrote it and no word is written outside vtbls[D]; decodeDtbls_encode for the multi-method tables); resolve reads the image through data and ss only (resolve_depends_on_data_and_ss), so calls behave as after update. The size bounds (indices below 2^14 / 2^15) are hypotheses: the emitted fields are uint16_t.",
+   "round-trip proof decode(encode c) = install c on the model + round-trip differential testing of the real encoder/decoder under ASan"),
  "C14": ("proof", "5.14", "Theorem: an operation on policy k leaves the whole state of every other policy unchanged, for any interleaving (frame, frame_seq, calls_unchanged). Correspondence: policies obtained by rebind sharing class ids, interleaved registrations/updates/calls (including virtual_ptr made from the class's static v-table pointer cell and final), dumps of the watched policy before and after. PARTIAL: that template instantiation gives each key its own statics is observed, not proved.",
    "frame proof on the multi-policy model + interleaving differential testing"),
  "C15": ("proof", "5.15", "Theorems: under the checked hash an id absent from the control table is reported as unknown_class on the reference route, the virtual_ptr route and the exact-static-type route (lookup_unknown, mkVPtr_unknown, mkVPtr_exact_unknown); final with another dynamic type is a method_table error; unknown parameter classes and listed bases are reported by update (resolveIds_unknown, buildGraph_unknown_base). Correspondence: one id left out at every place and route, and classes registered for one update and gone at the next (unknown with respect to the current tables on every route).",
